@@ -1,12 +1,12 @@
 #!/bin/bash
-# run every quick (or thorough) check in turn; one summary line per property
-tier=${1:-quick}
+# run every quick (or thorough) check in turn; one summary line per property.  usage: tools/runall.sh [quick|thorough] [cap seconds] [ids...]
+tier=${1:-quick}; cap=${2:-7200}; shift 2 2>/dev/null
+ids="$*"; [ -z "$ids" ] && ids=$(seq -f "C%02g" 1 20)
 cd "$(dirname "$0")/.."
-for i in $(seq -w 1 20); do
-  id=C$i
+for id in $ids; do
   s=$(date +%s)
-  ./vcheck $id --tier $tier > /tmp/runall_$id.log 2>&1
+  timeout $cap ./vcheck $id --tier $tier > /tmp/runall_${tier}_$id.log 2>&1
   rc=$?
   e=$(date +%s)
-  echo "$id rc=$rc wall=$((e-s))s $(grep -c '^KNOWN-FINDING' /tmp/runall_$id.log) known, $(grep -c '^VIOLATION' /tmp/runall_$id.log) viol; $(grep '^\[C' /tmp/runall_$id.log | cut -c1-160)"
+  echo "$id rc=$rc wall=$((e-s))s $(grep -c '^KNOWN-FINDING' /tmp/runall_${tier}_$id.log) known, $(grep -c '^VIOLATION' /tmp/runall_${tier}_$id.log) viol; $(grep '^\[C' /tmp/runall_${tier}_$id.log | cut -c1-170)"
 done
